@@ -177,6 +177,9 @@ func verifC19ConfigEntry(f verifkit.F, o verifC19Obj) structs.ConfigEntry {
 	if err := e.Validate(); err != nil {
 		f.Fatalf("harness: generated config entry %s/%s is invalid: %v", kn.Kind, kn.Name, err)
 	}
+	if o.Z {
+		e.SetHash(0) // written by a server that predates content hashes
+	}
 	return e
 }
 
@@ -672,8 +675,11 @@ func verifC19RunStore(f verifkit.F, c *verifkit.Case, cs *verifC19Case, shape ve
 		}
 	}
 
-	// ---- already equal => no writes
-	noWritesExpected := shape.setsEqual
+	// ---- already applied by the last round => not written again; already equal => no writes
+	if !verifC19CheckNotNewerNotUpserted(f, c, cs, d.Upserts) {
+		return
+	}
+	noWritesExpected := shape.setsEqual && (!shape.anyZeroHash || shape.allRemoteOld)
 	if typ == "fedstate" {
 		noWritesExpected = shape.setsEqual && shape.allRemoteOld
 	}
